@@ -474,18 +474,29 @@ inductive Ev (α : Type) where
   | exit (l : α)
 deriving DecidableEq, Repr, Inhabited
 
-/-- what one visitor callback does to its handler. Combinations behave like the strongest one
-(error > done > consume): `SetError` also sets done, and `Generic` tests Error, then Done, then WasConsumed. -/
+/-- one call of a `VisitorHandler` method made by a visitor inside a callback -/
+inductive Call where
+  | consume                    -- Consume()
+  | setDone                    -- SetDone()
+  | setError (isNil : Bool)    -- SetError(err) / SetErrorf; `isNil`: the error passed is nil
+deriving DecidableEq, Repr, Inhabited
+
+/-- The net effect of ALL the handler calls a visitor makes in one callback (`actOf`, exact by `calls_eq_apply`):
+nothing; only Consume(); SetDone() (with or without a Consume()); SetError(non-nil) (with or without SetDone() /
+Consume()). `SetError(nil)` calls contribute nothing. -/
 inductive Act where
-  | continue   -- nothing
-  | consume    -- Consume()
-  | done       -- SetDone()
-  | error      -- SetError(err) / SetErrorf
+  | continue
+  | consume
+  | done (consumed : Bool)
+  | error (consumed : Bool)
 deriving DecidableEq, Repr, Inhabited
 
 /-- a visitor: the action taken in a callback as a function of the whole event history, oldest first,
 the current event last -/
 abbrev Visitor (α : Type) := List (Ev α) → Act
+
+/-- a visitor at the level of handler calls: the calls it makes in a callback, in order -/
+abbrev CallVisitor (α : Type) := List (Ev α) → List Call
 
 /-- `walk.Cursor` -/
 structure Cursor (α : Type) where
@@ -516,8 +527,25 @@ structure State (α : Type) where
 def Handler.apply (h : Handler) : Act → Handler
   | .continue => h
   | .consume => { h with consumed := true }
-  | .done => { h with done := true }
-  | .error => { h with err := true, done := true }
+  | .done c => { h with consumed := h.consumed || c, done := true }
+  | .error c => { h with consumed := h.consumed || c, err := true, done := true }
+
+/-- the methods of `cancelableVisitorHandler`, statement by statement: `Consume` sets the flag, `SetDone` sets
+done, `SetError(err)` does NOTHING for a nil error (`if err != nil { … s.done = true }`) and otherwise records the
+error and sets done (`WasConsumed` is `clearConsumed`, `Done`/`Error` are the field reads in `iter`) -/
+def Handler.call (h : Handler) : Call → Handler
+  | .consume => { h with consumed := true }
+  | .setDone => { h with done := true }
+  | .setError isNil => if isNil then h else { h with err := true, done := true }
+
+def Handler.calls (h : Handler) (cs : List Call) : Handler := cs.foldl Handler.call h
+
+/-- the net effect of a sequence of handler calls -/
+def actOf (cs : List Call) : Act :=
+  let c := cs.contains .consume
+  if cs.contains (.setError false) then .error c
+  else if cs.contains .setDone then .done c
+  else if c then .consume else .continue
 
 /-- one callback `visitor.Enter/Visit/Exit(node)` -/
 def fire {α : Type} (v : Visitor α) (s : State α) (e : Ev α) : State α :=
@@ -595,6 +623,9 @@ def fuel {α : Type} (t : Tree α) : Nat := 2 * t.size + 2
 
 /-- `walk.Generic(root, visitor, cursorConstructor)` on the branch tree `t` -/
 def generic {α : Type} (v : Visitor α) (t : Tree α) : State α := steps v (fuel t) (start t)
+
+/-- `walk.Generic` with a visitor given by its handler calls -/
+def genericCalls {α : Type} (v : CallVisitor α) (t : Tree α) : State α := generic (fun hist => actOf (v hist)) t
 
 /-- the visitor of the harness scripts: action `a` in the `k`-th callback (1-based), nothing otherwise -/
 def scripted {α : Type} (k : Nat) (a : Act) : Visitor α := fun hist => if hist.length == k then a else .continue
